@@ -2,6 +2,7 @@
 package c04
 
 import (
+	"encoding/json"
 	"fmt"
 	"os"
 	"path/filepath"
@@ -10,6 +11,7 @@ import (
 
 	"github.com/tsawler/tabula/core"
 	"github.com/tsawler/tabula/reader"
+	"github.com/tsawler/tabula/resolver"
 
 	"verifharness/hx"
 	"verifharness/writers"
@@ -22,8 +24,105 @@ func init() { hx.Register("C04", Run, Replay) }
 type action struct {
 	Kind       string `json:"kind"` // "put" | "del"
 	Dict       bool   `json:"dict,omitempty"`
+	Arr        bool   `json:"arr,omitempty"` // top-level array [ ID extra ] (plain objects only)
 	Compressed bool   `json:"compressed,omitempty"`
 	ID         int    `json:"id,omitempty"`
+	// Extra is a further value stored in the container (<< /V ID /X extra >> or [ ID extra ]):
+	// integers, indirect references, nested arrays and dictionaries.
+	Extra *val `json:"extra,omitempty"`
+}
+
+// val is a logical PDF value: "i" integer N, "r" reference to object N (generation 0),
+// "a" array of E, "d" dictionary with the values E under the keys K0, K1, …
+type val struct {
+	K string `json:"k"`
+	N int    `json:"n,omitempty"`
+	E []val  `json:"e,omitempty"`
+}
+
+// pdf is the value in PDF syntax.
+func (v val) pdf() string {
+	switch v.K {
+	case "r":
+		return fmt.Sprintf("%d 0 R", v.N)
+	case "a":
+		parts := []string{"["}
+		for _, e := range v.E {
+			parts = append(parts, e.pdf())
+		}
+		return strings.Join(append(parts, "]"), " ")
+	case "d":
+		parts := []string{"<<"}
+		for i, e := range v.E {
+			parts = append(parts, fmt.Sprintf("/K%d", i), e.pdf())
+		}
+		return strings.Join(append(parts, ">>"), " ")
+	}
+	return fmt.Sprintf("%d", v.N)
+}
+
+// deep is the canonical rendering of the value: with look == nil as the file stores it
+// (references stay references), else with every reference replaced by what look(n) says
+// is the deep value of the newest definition of object n (ok=false if some reachable
+// object is not a plain user object: deleted, never defined, or a container stream).
+func (v val) deep(look func(n int) (string, bool)) (string, bool) {
+	switch v.K {
+	case "r":
+		if look == nil {
+			return fmt.Sprintf("%dR", v.N), true
+		}
+		return look(v.N)
+	case "a", "d":
+		ok := true
+		var parts []string
+		for i, e := range v.E {
+			s, o := e.deep(look)
+			ok = ok && o
+			if v.K == "d" {
+				s = fmt.Sprintf("K%d:%s", i, s)
+			}
+			parts = append(parts, s)
+		}
+		if v.K == "d" {
+			sort.Strings(parts)
+			return "{" + strings.Join(parts, ",") + "}", ok
+		}
+		return "[" + strings.Join(parts, ",") + "]", ok
+	}
+	return fmt.Sprintf("i%d", v.N), true
+}
+
+// top is the whole object of a put action as a val.
+func (a action) top() (v val, keys []string) {
+	id := val{K: "i", N: a.ID}
+	switch {
+	case a.Arr:
+		v = val{K: "a", E: []val{id}}
+	case a.Dict:
+		v = val{K: "d", E: []val{id}}
+	default:
+		return id, nil
+	}
+	if a.Extra != nil {
+		v.E = append(v.E, *a.Extra)
+	}
+	return v, []string{"V", "X"}
+}
+
+// full renders the object of a put action: stored (look == nil) or deep.
+func (a action) full(look func(n int) (string, bool)) (string, bool) {
+	v, keys := a.top()
+	if v.K != "d" {
+		return v.deep(look)
+	}
+	ok := true
+	var parts []string
+	for i, e := range v.E {
+		s, o := e.deep(look)
+		ok = ok && o
+		parts = append(parts, keys[i]+":"+s)
+	}
+	return "{" + strings.Join(parts, ",") + "}", ok
 }
 
 type revision struct {
@@ -62,19 +161,34 @@ type built struct {
 	objs    []string // off:num:val
 	start   int64
 	expect  map[int]string // oracle: object number -> expected token
+	newest  map[int]action // oracle: object number -> newest action of the logical history
 	maxNum  int
 	special map[int]bool // container numbers (objstm / xref stream / length holders)
 	hot     []int        // object numbers touched by an injected fault
 }
 
 func body(a action) string {
+	x := ""
+	if a.Extra != nil {
+		x = a.Extra.pdf() + " "
+	}
+	if a.Arr {
+		return fmt.Sprintf("[ %d %s]", a.ID, x)
+	}
 	if a.Dict {
-		return fmt.Sprintf("<< /V %d >>", a.ID)
+		if x != "" {
+			x = "/X " + x
+		}
+		return fmt.Sprintf("<< /V %d %s>>", a.ID, x)
 	}
 	return fmt.Sprintf("%d", a.ID)
 }
 
+// tok is the shallow class of the object, as the model sees it.
 func tok(a action) string {
+	if a.Arr {
+		return "o"
+	}
 	if a.Dict {
 		return fmt.Sprintf("d%d", a.ID)
 	}
@@ -83,7 +197,7 @@ func tok(a action) string {
 
 func build(h history) built {
 	p := writers.NewPDF(h.EOL)
-	b := built{expect: map[int]string{}, special: map[int]bool{}}
+	b := built{expect: map[int]string{}, special: map[int]bool{}, newest: map[int]action{}}
 	next := h.N + 1 // fresh object numbers for containers
 	prev := int64(-1)
 	gens := map[int]int{}
@@ -102,6 +216,7 @@ func build(h history) built {
 		var comp []int
 		for _, n := range nums {
 			a := rev.Actions[n]
+			b.newest[n] = a
 			switch {
 			case a.Kind == "del":
 				gens[n]++
@@ -301,6 +416,11 @@ func (b built) opLine(ops []string) string {
 	return fmt.Sprintf("c04.run S=%d X=%s O=%s P=%s", b.start, strings.Join(secs, "|"), strings.Join(b.objs, ";"), strings.Join(ops, ","))
 }
 
+func canon(k kase) string {
+	j, _ := json.Marshal(k)
+	return string(j)
+}
+
 func classify(obj core.Object, err error) string {
 	if err != nil {
 		return "e"
@@ -340,85 +460,278 @@ func dumpXref(t *core.XRefTable) string {
 	return strings.Join(out, ",")
 }
 
+// render is the canonical form of a looked-up value, at full depth: references stay
+// visible as references ("5R"), so a stored value and its resolved form differ.
+func render(o core.Object, depth int) string {
+	if depth > 40 {
+		return "…"
+	}
+	switch v := o.(type) {
+	case nil:
+		return "nil"
+	case core.Int:
+		return fmt.Sprintf("i%d", int(v))
+	case core.IndirectRef:
+		if v.Generation != 0 {
+			return fmt.Sprintf("%d.%dR", v.Number, v.Generation)
+		}
+		return fmt.Sprintf("%dR", v.Number)
+	case core.Array:
+		parts := make([]string, len(v))
+		for i, e := range v {
+			parts[i] = render(e, depth+1)
+		}
+		return "[" + strings.Join(parts, ",") + "]"
+	case core.Dict:
+		keys := make([]string, 0, len(v))
+		for k := range v {
+			keys = append(keys, k)
+		}
+		sort.Strings(keys)
+		parts := make([]string, len(keys))
+		for i, k := range keys {
+			parts[i] = k + ":" + render(v[k], depth+1)
+		}
+		return "{" + strings.Join(parts, ",") + "}"
+	case *core.Stream:
+		return "S"
+	}
+	return fmt.Sprintf("o(%T)", o)
+}
+
+// wantStored is what GetObject(n) / Resolve(n 0 R) must yield by the logical history:
+// the newest revision's value exactly as stored, or "e".
+func (b built) wantStored(n int) string {
+	if b.special[n] {
+		return b.expect[n]
+	}
+	a, ok := b.newest[n]
+	if !ok || a.Kind == "del" {
+		return "e"
+	}
+	s, _ := a.full(nil)
+	return s
+}
+
+// wantDeep is what a deep resolution of object n must yield: every reference replaced
+// by the newest value of its target. ok=false where the property text does not fix the
+// answer (a reachable target is deleted, undefined or a container stream).
+func (b built) wantDeep(n int) (string, bool) {
+	if b.special[n] {
+		return "", false
+	}
+	a, ok := b.newest[n]
+	if !ok || a.Kind == "del" {
+		return "e", true // the lookup of n itself must fail
+	}
+	var look func(m int) (string, bool)
+	look = func(m int) (string, bool) {
+		t, ok := b.newest[m]
+		if b.special[m] || !ok || t.Kind == "del" {
+			return "?", false
+		}
+		return t.full(look)
+	}
+	return a.full(look)
+}
+
+// Lookup operations of a sequence: c = ClearCache; g<n> = GetObject(n); r<n> =
+// Resolve(n 0 R); D<n> = ResolveDeep(n 0 R); E<n> = ResolveDeep(GetObject(n)) (the
+// container handed out by a lookup is handed back); x<n> / y<n> = the resolver
+// package's GetObjectResolvedDeep(n) / ResolveReferenceDeep(n 0 R) on one resolver
+// bound to the reader.
+func parseOp(op string) (kind byte, n int) {
+	if op == "c" || op == "" {
+		return 'c', 0
+	}
+	fmt.Sscanf(op[1:], "%d", &n)
+	return op[0], n
+}
+
+func isDeep(kind byte) bool { return kind == 'D' || kind == 'E' || kind == 'x' || kind == 'y' }
+
+type session struct {
+	rd  *reader.Reader
+	res *resolver.ObjectResolver
+}
+
+func openSession(path string) (*session, error) {
+	rd, err := reader.Open(path)
+	if err != nil {
+		return nil, err
+	}
+	return &session{rd: rd, res: resolver.NewResolver(rd)}, nil
+}
+
+func (s *session) do(op string) (core.Object, error) {
+	kind, n := parseOp(op)
+	ref := core.IndirectRef{Number: n, Generation: 0}
+	switch kind {
+	case 'c':
+		s.rd.ClearCache()
+		return nil, nil
+	case 'g':
+		return s.rd.GetObject(n)
+	case 'r':
+		return s.rd.Resolve(ref)
+	case 'D':
+		return s.rd.ResolveDeep(ref)
+	case 'E':
+		obj, err := s.rd.GetObject(n)
+		if err != nil {
+			return nil, err
+		}
+		return s.rd.ResolveDeep(obj)
+	case 'x':
+		return s.res.GetObjectResolvedDeep(n)
+	case 'y':
+		return s.res.ResolveReferenceDeep(ref)
+	}
+	return nil, fmt.Errorf("harness: unknown op %q", op)
+}
+
+func full(obj core.Object, err error) string {
+	if err != nil {
+		return "e"
+	}
+	return render(obj, 0)
+}
+
 // runCase writes the file, runs the lookup sequence on the implementation,
-// emits the correspondence op and evaluates the statement-level oracle.
+// emits the correspondence op and evaluates the statement-level oracles.
 func runCase(c *hx.Ctx, k kase, tag string) {
 	b := build(k.Hist)
 	path := filepath.Join(c.OutDir, "c04-"+tag+".pdf")
 	os.WriteFile(path, b.data, 0o644)
 	defer os.Remove(path)
-	var res, errs []string
+	var res, errs []string // shallow class / error text, one per non-clear op
+	var fulls []string     // full rendering, one per non-clear op
+	var modelOps []string  // the shallow lookups (GetObject / Resolve) and cache clears, for the model
+	var modelRes []string
+	alone := map[string]string{} // op -> full rendering when it is the only lookup on a fresh reader
 	var xref string
 	opened := false
 	openErr := ""
 	if !c.Guard("C04", k, 10, func() {
-		rd, err := reader.Open(path)
+		s, err := openSession(path)
 		if err != nil {
 			openErr = err.Error()
 			return
 		}
 		opened = true
-		defer rd.Close()
-		xref = dumpXref(rd.XRefTable())
+		defer s.rd.Close()
+		xref = dumpXref(s.rd.XRefTable())
 		for _, op := range k.Ops {
-			if op == "c" {
-				rd.ClearCache()
+			kind, _ := parseOp(op)
+			obj, err := s.do(op)
+			if kind == 'c' {
+				modelOps = append(modelOps, "c")
 				continue
 			}
-			var n int
-			fmt.Sscanf(op, "g%d", &n)
-			obj, err := rd.GetObject(n)
 			res = append(res, classify(obj, err))
+			fulls = append(fulls, full(obj, err))
 			if err != nil {
 				errs = append(errs, err.Error())
 			} else {
 				errs = append(errs, "")
 			}
+			if kind == 'g' || kind == 'r' {
+				_, n := parseOp(op)
+				modelOps = append(modelOps, fmt.Sprintf("g%d", n))
+				modelRes = append(modelRes, classify(obj, err))
+			}
+		}
+		for _, op := range k.Ops {
+			if kind, _ := parseOp(op); kind == 'c' {
+				continue
+			}
+			if _, done := alone[op]; done {
+				continue
+			}
+			f, err := openSession(path)
+			if err != nil {
+				alone[op] = "open-error"
+				continue
+			}
+			alone[op] = full(f.do(op))
+			f.rd.Close()
 		}
 	}) {
 		return
 	}
 	if !opened && k.Hist.Fault != "" {
-		c.Case(fmt.Sprint(k), false)
+		c.Case(canon(k), false)
 		c.Count("fault-open-error")
 		return
 	}
 	if !c.Check("C04/open", opened, k, func() string { return "reader.Open failed on a well-formed revision history: " + openErr }) {
 		return
 	}
-	c.Op(b.opLine(k.Ops), fmt.Sprintf("xref=[%s] res=[%s]", xref, strings.Join(res, ",")))
+	c.Op(b.opLine(modelOps), fmt.Sprintf("xref=[%s] res=[%s]", xref, strings.Join(modelRes, ",")))
 	nontrivial := false
-	if k.Hist.Fault == "" {
-		i := 0
-		for _, op := range k.Ops {
-			if op == "c" {
-				continue
-			}
-			var n int
-			fmt.Sscanf(op, "g%d", &n)
-			want, ok := b.expect[n]
-			if !ok {
-				want = "e"
-			}
-			got := res[i]
-			i++
-			if want != "e" {
+	i := 0
+	for _, op := range k.Ops {
+		kind, n := parseOp(op)
+		if kind == 'c' {
+			continue
+		}
+		got, gotFull := res[i], fulls[i]
+		i++
+		c.Count("op=" + string(kind))
+		// "The answer does not depend on the order of lookups or on what was looked up
+		// before": the same lookup as the only one on a freshly opened reader.
+		c.Check("C04/answer-depends-on-earlier-lookups", gotFull == alone[op], k, func() string {
+			return fmt.Sprintf("lookup #%d (%s) = %s after the earlier operations, but %s as the only lookup on a freshly opened reader (ops %v)", i, op, gotFull, alone[op], k.Ops)
+		})
+		if k.Hist.Fault != "" {
+			continue
+		}
+		if isDeep(kind) {
+			want, fixed := b.wantDeep(n)
+			switch {
+			case !fixed:
+				c.Count("deep-target-unresolvable")
+			case want == "e":
+				c.Check("C04/free-or-missing-must-error", gotFull == "e", k, func() string {
+					return fmt.Sprintf("lookup #%d (%s) = %s, but object %d is free or was never defined (ops %v)", i, op, gotFull, n, k.Ops)
+				})
+			default:
 				nontrivial = true
+				if strings.Contains(b.wantStored(n), "R") {
+					c.Count("deep-through-references")
+				}
+				c.Check("C04/deep-resolve-newest-revision", gotFull == want, k, func() string {
+					return fmt.Sprintf("lookup #%d (%s) = %s, the newest revisions resolve to %s (ops %v) err=%q", i, op, gotFull, want, k.Ops, errs[i-1])
+				})
 			}
-			key := "C04/newest-revision"
-			if want == "e" {
-				key = "C04/free-or-missing-must-error"
-			}
-			c.Check(key, got == want, k, func() string {
-				return fmt.Sprintf("lookup #%d of object %d = %s, newest revision says %s (ops %v) err=%q", i, n, got, want, k.Ops, errs[i-1])
+			continue
+		}
+		want, ok := b.expect[n]
+		if !ok {
+			want = "e"
+		}
+		if want != "e" {
+			nontrivial = true
+		}
+		key := "C04/newest-revision"
+		if want == "e" {
+			key = "C04/free-or-missing-must-error"
+		}
+		if c.Check(key, got == want, k, func() string {
+			return fmt.Sprintf("lookup #%d of object %d = %s, newest revision says %s (ops %v) err=%q", i, n, got, want, k.Ops, errs[i-1])
+		}) {
+			wantFull := b.wantStored(n)
+			c.Check("C04/lookup-value-not-as-stored", gotFull == wantFull, k, func() string {
+				return fmt.Sprintf("lookup #%d (%s) = %s, the newest revision stores %s (ops %v)", i, op, gotFull, wantFull, k.Ops)
 			})
 		}
 	}
-	c.Case(fmt.Sprint(k), nontrivial)
+	c.Case(canon(k), nontrivial)
 }
 
 func genOps(r *hx.Rng, maxNum int) []string {
 	n := r.Range(3, 14)
+	kinds := []string{"g", "g", "g", "g", "g", "r", "r", "D", "D", "E", "x", "y"}
 	var ops []string
 	for i := 0; i < n; i++ {
 		switch {
@@ -426,17 +739,50 @@ func genOps(r *hx.Rng, maxNum int) []string {
 			ops = append(ops, "c")
 		case len(ops) > 0 && r.Chance(1, 4):
 			ops = append(ops, hx.Pick(r, ops)) // repeat an earlier op
+		case len(ops) > 0 && r.Chance(1, 3):
+			// the object of an earlier lookup again, through another kind of lookup
+			if kind, m := parseOp(hx.Pick(r, ops)); kind != 'c' {
+				ops = append(ops, fmt.Sprintf("%s%d", hx.Pick(r, kinds), m))
+				break
+			}
+			fallthrough
 		default:
-			ops = append(ops, fmt.Sprintf("g%d", r.Intn(maxNum+3)))
+			ops = append(ops, fmt.Sprintf("%s%d", hx.Pick(r, kinds), r.Intn(maxNum+3)))
 		}
 	}
 	return ops
+}
+
+// genVal draws a value for the inside of a container: integers, references to the
+// objects in below (the user objects of a lower level, so reference graphs are acyclic
+// whatever mix of revisions is newest) or, rarely, to object 0 / a number above the
+// user objects (containers, length holders, never-defined numbers), nested arrays and
+// dictionaries.
+func genVal(r *hx.Rng, depth int, below []int, n int) val {
+	switch c := r.Intn(10); {
+	case c < 4 && len(below) > 0:
+		return val{K: "r", N: hx.Pick(r, below)}
+	case c < 5 && r.Chance(1, 3):
+		return val{K: "r", N: hx.Pick(r, []int{0, n + 1, n + 2, n + r.Range(1, 10)})}
+	case c < 8 && depth < 2:
+		v := val{K: hx.Pick(r, []string{"a", "d"})}
+		for i, m := 0, r.Range(0, 3); i < m; i++ {
+			v.E = append(v.E, genVal(r, depth+1, below, n))
+		}
+		return v
+	}
+	return val{K: "i", N: r.Intn(1000)}
 }
 
 func genHistory(r *hx.Rng) history {
 	h := history{N: r.Range(1, 12), EOL: hx.Pick(r, []string{"\n", "\n", "\r\n"})}
 	nrev := r.Range(1, 6)
 	id := 100
+	// every object number has a level; a container only refers to numbers of lower levels
+	level := make([]int, h.N+1)
+	for n := 1; n <= h.N; n++ {
+		level[n] = r.Intn(4)
+	}
 	for ri := 0; ri < nrev; ri++ {
 		rev := revision{Actions: map[int]action{}, W: hx.Pick(r, [][3]int{{1, 3, 2}, {1, 4, 2}, {1, 2, 1}, {2, 8, 3}, {1, 3, 0}})}
 		rev.XrefStream = r.Chance(2, 5)
@@ -459,10 +805,30 @@ func genHistory(r *hx.Rng) history {
 				continue
 			}
 			id++
-			a := action{Kind: "put", ID: id, Dict: r.Chance(1, 3)}
+			a := action{Kind: "put", ID: id}
 			if r.Chance(1, 3) {
 				a.Compressed = true
 				rev.XrefStream = true
+			}
+			switch r.Intn(6) {
+			case 0, 1, 2:
+				a.Dict = true
+			case 3:
+				if a.Compressed {
+					a.Dict = true
+				} else {
+					a.Arr = true
+				}
+			}
+			if (a.Dict || a.Arr) && r.Chance(3, 4) {
+				var below []int
+				for m := 1; m <= h.N; m++ {
+					if level[m] < level[n] {
+						below = append(below, m)
+					}
+				}
+				x := genVal(r, 0, below, h.N)
+				a.Extra = &x
 			}
 			rev.Actions[n] = a
 		}
@@ -486,29 +852,52 @@ func genHistory(r *hx.Rng) history {
 }
 
 // exhaustive enumerates all histories over n objects and r revisions where every
-// object in every revision is one of {untouched, put plain, put compressed, deleted}.
+// object in every revision is one of {untouched, put plain, put compressed, deleted},
+// once with integer values looked up by GetObject only, and once (linked) with every
+// object a dictionary that refers to the object numbered one lower - directly and
+// inside a nested array - looked up through every kind of lookup.
 func exhaustive(c *hx.Ctx, n, r int) {
 	states := 1
 	for i := 0; i < n*r; i++ {
 		states *= 4
 	}
 	opsets := [][]string{{"g1", "g2", "g1"}, {"g2", "g1", "c", "g2"}, {"g3", "g2", "g1", "g3"}, {"g0", "g1", "g4", "g1"}}
+	top := fmt.Sprint(n)
+	linkedOps := [][]string{
+		{"D" + top, "g" + top, "r" + top, "g1"},
+		{"g" + top, "E" + top, "g" + top, "c", "g" + top},
+		{"y" + top, "D1", "r" + top, "x" + top, "g" + top},
+		{"D" + fmt.Sprint(n+1), "E2", "r1", "r2", "D2"},
+		{"x2", "g1", "D2", "c", "E1", "g2", "g1"},
+		{"r2", "D2", "y2", "g2", "D2", "r2"},
+	}
 	for code := 0; code < states; code++ {
-		for xk := 0; xk < 2; xk++ {
+		for xk := 0; xk < 4; xk++ {
+			linked := xk >= 2
 			h := history{N: n, EOL: "\n"}
 			v := code
 			id := 10
 			for ri := 0; ri < r; ri++ {
-				rev := revision{Actions: map[int]action{}, W: [3]int{1, 3, 2}, XrefStream: xk == 1, Flate: ri%2 == 0}
+				rev := revision{Actions: map[int]action{}, W: [3]int{1, 3, 2}, XrefStream: xk%2 == 1, Flate: ri%2 == 0}
 				for o := 1; o <= n; o++ {
 					st := v % 4
 					v /= 4
 					id++
+					a := action{Kind: "put", ID: id}
+					if linked {
+						a.Dict = true
+						x := val{K: "a", E: []val{{K: "i", N: id + 500}}}
+						if o > 1 {
+							x = val{K: "d", E: []val{{K: "r", N: o - 1}, {K: "a", E: []val{{K: "r", N: o - 1}, {K: "i", N: 7}}}}}
+						}
+						a.Extra = &x
+					}
 					switch st {
 					case 1:
-						rev.Actions[o] = action{Kind: "put", ID: id}
+						rev.Actions[o] = a
 					case 2:
-						rev.Actions[o] = action{Kind: "put", ID: id, Compressed: true}
+						a.Compressed = true
+						rev.Actions[o] = a
 						rev.XrefStream = true
 					case 3:
 						rev.Actions[o] = action{Kind: "del"}
@@ -516,7 +905,11 @@ func exhaustive(c *hx.Ctx, n, r int) {
 				}
 				h.Revs = append(h.Revs, rev)
 			}
-			runCase(c, kase{Hist: h, Ops: opsets[(code+xk)%len(opsets)]}, "x")
+			ops := opsets[(code+xk)%len(opsets)]
+			if linked {
+				ops = linkedOps[(code+xk)%len(linkedOps)]
+			}
+			runCase(c, kase{Hist: h, Ops: ops}, "x")
 			c.Count(fmt.Sprintf("exhaustive-n%d-r%d", n, r))
 		}
 	}
@@ -621,7 +1014,7 @@ func entryOps(c *hx.Ctx) {
 
 func Run(c *hx.Ctx) {
 	entryOps(c)
-	c.Rep.Rule = "revision histories (add/replace/delete per object per revision; classic or stream xref per revision; object-stream membership; indirect /Length; W widths; predictors) rendered by the harness PDF writer, then lookup sequences with repeats and ClearCache; exhaustive for n=2 objects x r<=2 (thorough: r<=3) revisions x both xref kinds; non-trivial = at least one lookup expected to succeed; distinct by (history, ops)"
+	c.Rep.Rule = "revision histories (add/replace/delete per object per revision; values integers, dictionaries and arrays that hold references to other objects, nested containers, dangling references; classic or stream xref per revision; object-stream membership; indirect /Length; W widths; predictors) rendered by the harness PDF writer, then lookup sequences over GetObject, Resolve, ResolveDeep (of a reference and of a looked-up container) and the resolver package's deep lookups, with repeats and ClearCache, every answer also compared with the same lookup alone on a fresh reader; exhaustive for n=2 objects x r<=2 (thorough: r<=3) revisions x both xref kinds; non-trivial = at least one lookup expected to succeed; distinct by (history, ops)"
 	exhaustive(c, 2, 1)
 	exhaustive(c, 2, 2)
 	if c.Thorough() {
